@@ -89,22 +89,32 @@ def main():
         result["confirmed"] = (rc0 == 0 and rc1 != 0 and rc2 == 0 and result["patch_applies"])
     finally:
         sh(["git", "-C", REPO, "worktree", "remove", "--force", wt])
-    # run the checks against the patched /repo
+    # run the checks against a patched COPY of the repository (a second scratch worktree; VERIF_REPO points the whole
+    # machinery at it), so that /repo itself, the committed evidence and concurrently running work are not disturbed
     verdicts = {}
-    st_rc, st_out = sh(["git", "-C", REPO, "status", "--short"])
-    assert st_out.strip() == "", "/repo not clean: " + st_out
-    rc, out = sh(["git", "-C", REPO, "apply", patch])
+    wt2 = f"/tmp/seedrun_{name}"
+    sh(["git", "-C", REPO, "worktree", "remove", "--force", wt2])
+    rc, out = sh(["git", "-C", REPO, "worktree", "add", "--detach", wt2, "HEAD"])
+    assert rc == 0, out
     try:
+        rc, out = sh(["git", "apply", patch], cwd=wt2)
         if rc == 0:
+            env2 = dict(ENV, VERIF_REPO=wt2, VERIF_EVIDENCE_DIR=f"/tmp/seedrun_{name}_evidence", VERIF_REPLAY_DIR=os.path.join(VERIF, "replays"))
             for c in checks:
                 t0 = time.time()
-                crc, cout = sh(["python3", os.path.join(VERIF, "bin", "check"), c], timeout=3600)
+                r = subprocess.run(["python3", os.path.join(VERIF, "bin", "check"), c], env=env2, stdout=subprocess.PIPE,
+                                   stderr=subprocess.STDOUT, text=True, timeout=3600)
+                crc, cout = r.returncode, r.stdout
                 lines = [l for l in cout.split("\n") if l.startswith("VIOLATION") or l.startswith("OK ") or l.startswith("  violation") or l.startswith("  broken")]
                 verdicts[c] = {"exit": crc, "wall_s": round(time.time() - t0, 1), "lines": [l[:300] for l in lines[:6]],
                                "caught": crc == 1, "with_failing_input": any(l.startswith("VIOLATION") and "no-failing-input-found" not in l for l in lines)}
     finally:
-        sh(["git", "-C", REPO, "checkout", "--", "."])
-        sh(["git", "-C", REPO, "clean", "-fdq"])
+        sh(["git", "-C", REPO, "worktree", "remove", "--force", wt2])
+        shutil.rmtree(f"/tmp/seedrun_{name}_evidence", ignore_errors=True)
+        # regenerate the source-derived Lean files for /repo itself again
+        subprocess.run(["python3", "-m", "vlib.factgen"], cwd=VERIF, env=ENV, stdout=subprocess.DEVNULL, stderr=subprocess.DEVNULL)
+        if os.path.exists(os.path.join(VERIF, "vlib", "accessgen.py")):
+            subprocess.run(["python3", "-m", "vlib.accessgen"], cwd=VERIF, env=ENV, stdout=subprocess.DEVNULL, stderr=subprocess.DEVNULL)
     result["checks"] = verdicts
     # store
     dst = os.path.join(VERIF, "seeded", name)
